@@ -6,7 +6,8 @@ from vf import gens
 from vf.runner import hyp_run, run_cases, guard, fail, exc_failure
 
 THOROUGH_SCALE = 6      # multiplies every generated-case budget of the thorough tier
-RULE = ("histories of 1-40 frames of 3x3..48x48 built from a generated voxel set: random fills (incl. empty frames), "
+RULE = ("drivers: labelimage, peaksearcher.peaksearch with three thresholds, and (one case in six) the command-line program peaksearch_driver on EDF files (angle from Omega / a named motor / -T -S, reader thread or --singleThread); " +
+        "histories of 1-40 frames of 3x3..48x48 built from a generated voxel set: random fills (incl. empty frames), "
         "'tubes' (3-D paths that wander, fork and re-join between frames), explicit bridges (two blobs on one frame "
         "joined only through the previous frame or only through the next frame), chains over >= 3 frames; integer "
         "intensities; thresholds below/between/at pixel values; omega start/step multiples of 1/16; driven through "
